@@ -174,9 +174,14 @@ class WithStatement(TypedExpression):
                 indent_prefix = " " * indent
                 if body_str.startswith(indent_prefix):
                     body_str = body_str[len(indent_prefix) :]
+        elif body_force_newline:
+            # The layout is already decided: an inline preview would render the
+            # whole body a second time at every level of nested `with`.
+            body_sep = "\n"
+            body_str = self.body.rebuild(indent=indent, inline=False)
         else:
             inline_body = self.body.rebuild(indent=indent, inline=True)
-            if body_force_newline or "\n" in inline_body:
+            if "\n" in inline_body:
                 body_sep = "\n"
                 body_str = self.body.rebuild(indent=indent, inline=False)
             else:
